@@ -176,7 +176,9 @@ func (p *Program) Func(rel, recv, name string) *ssa.Function {
 			if sel.Obj().Name() == name && sel.Obj().Pkg() == sp.Pkg {
 				// only methods declared on this type (not promoted)
 				if len(sel.Index()) == 1 {
-					return p.SSA.MethodValue(sel)
+					if f := p.SSA.MethodValue(sel); f != nil && f.Synthetic == "" {
+						return f
+					}
 				}
 			}
 		}
